@@ -167,7 +167,19 @@ class Pairing:
                 st = self.ex(n["tail"], st, depth)
             return st
         if k == "blockexpr":
+            if "inl_id" in n:
+                # an inlined helper: its `return`s (ireturn) continue after the block
+                self._irets = getattr(self, "_irets", {})
+                self._irets[n["inl_id"]] = set()
+                out = self.ex(n["b"], st, depth)
+                return frozenset(set(out) | self._irets.pop(n["inl_id"]))
             return self.ex(n["b"], st, depth)
+        if k == "ireturn":
+            if "e" in n:
+                st = self.ex(n["e"], st, depth)
+            if n.get("inl") in getattr(self, "_irets", {}):
+                self._irets[n["inl"]] |= set(st)
+            return frozenset()
         if k == "semi":
             return self.ex(n["e"], st, depth)
         if k == "let":
